@@ -9,7 +9,7 @@ req  <nUp> <fb> <rules>            set the request program   → dump of the com
 resp <nUp> <fb> <rules>            set the response program  → dump of the compiled program
 rq   n:<name> <qtype> rx:<ids>     RequestMatcher.Match      → hit:<byte> | nohit
 rs   n:<name> <qtype> <from> ips:<addrs> rx:<ids>            → hit:<byte> | nohit | emptyname
-cfg  <nUp> <reqfb> <reqrules> <respfb> <resprules>           → ok | builderr
+cfg  <nUp> <reqfb> <reqrules> <respfb> <resprules> [urls:…]  → ok | builderr
 ask  <dst> <isResp> <q|noq> n:<name> <qtype> rx:<ids> seed:<entries> ans:<table>
                                                              → trace=… reply=… cache=…
 rules := '-' | rule (';' rule)*      rule := func ('&' func)* '>' out
@@ -283,7 +283,7 @@ def handleLine (st : St) (line : String) : St × String :=
              else s!"MODEL-SPLIT scan={matchResStr r} spec={spec}")
       | none => (st, "bad-op")
     | _, _, _, _, _, _ => (st, "bad-op")
-  | ["cfg", n, rfb, rrules, sfb, srules] =>
+  | "cfg" :: n :: rfb :: rrules :: sfb :: srules :: _ =>   -- further tokens (upstream URLs) are for the replay reader
     match n.toNat?, parseOut .req rfb, parseRules .req rrules, parseOut .resp sfb, parseRules .resp srules with
     | some n, some rfb, some rrs, some sfb, some srs =>
       let P := compileRequest rrs rfb
